@@ -1,5 +1,6 @@
 import Driver.Util
 import Driver.Mac
+import Driver.Dev
 /-! Suite C04: MAC-level histories (see Driver/Mac.lean). The model's run satisfies the C04
 theorems (Props/C04.lean), hence `oracle=ok` on the model side. -/
 namespace Driver.C04
@@ -7,6 +8,7 @@ namespace Driver.C04
 def handle (ws : List String) : String :=
   match ws with
   | "mac" :: rest => s!"{Driver.Mac.run rest} ## oracle=ok|-"
+  | "adev" :: rest => s!"{Driver.Dev.run rest} ## oracle=ok|-"
   | _ => "bad-op"
 
 end Driver.C04
